@@ -905,6 +905,22 @@ impl MT107 {
         let ref_71f_currency = self.field_71f.as_ref().map(|f| &f.currency);
         let ref_71g_currency = self.field_71g.as_ref().map(|f| &f.currency);
 
+        // Field 71G of Sequence C belongs to the same currency group as the settlement amount
+        if let Some(ref_currency) = ref_71g_currency
+            && ref_currency != settlement_currency
+        {
+            errors.push(SwiftValidationError::content_error(
+                "C02",
+                "71G",
+                ref_currency,
+                &format!(
+                    "Sequence C: Currency code in field 71G ({}) must be the same as in field 32B ({})",
+                    ref_currency, settlement_currency
+                ),
+                "The currency code in fields 32B and 71G must be the same for all occurrences in Sequences B and C",
+            ));
+        }
+
         // Check 32B currency consistency in Sequence B
         for (idx, transaction) in self.transactions.iter().enumerate() {
             if &transaction.field_32b.currency != settlement_currency {
